@@ -45,14 +45,23 @@ def r1b_writes_unconditional(ctx, chk, rule="C11.1"):
     sx = SymX(ctx, f, inline_depth=3, no_inline=("player_two_transitions",)).run()
     ws = _writes(sx, sx.final.effects, [])
     conds = []
+    seen_brace = False
+    n_pre_cond = 0
     for loops, cond, t in ws:
+        if not seen_brace and is_const(t) and isinstance(t[1], str) and t[1].lstrip().startswith("{"):
+            seen_brace = True
+        if not seen_brace:
+            # the comment in front of the dictionary may have optional lines (their line discipline is judged with and without them)
+            n_pre_cond += cond != TRUE
+            continue
         if cond != TRUE and cond not in conds:
             conds.append(cond)
     if not ws:
         chk.undecided(rule, f.where(), "no write() reconstructed from write_robots")
         return
     if not conds:
-        chk.ok(rule, f.where(), "all %d writes of write_robots are unconditional: every call (re)writes the whole file" % len(ws))
+        chk.ok(rule, f.where(), "all %d writes of the dictionary of games are unconditional: every call (re)writes the three games%s" % (
+            len(ws), " (%d optional comment pieces in the preamble)" % n_pre_cond if n_pre_cond else ""))
         return
     for c in conds:
         fs = [t for t in C02._sub(c) if (t[0] == "call" and (t[1] == "open" or t[1].startswith("os.path.") or t[1].startswith("os."))) or t[0] == "raised"
@@ -102,19 +111,28 @@ def r1_template(ctx, chk, rule="C11.1"):
         return any(x[0] == "dict" for x in C02._sub(t))
     texts = []
     game_terms = []
-    for loops, cond, t in ws:
-        if cond != TRUE:
-            chk.undecided(rule, f.where(), "a write is conditional: %s" % show(cond))
-            return None
-        texts.append((loops, t))
     # --- preamble line discipline: unroll the loops 0,1,2 times
     pre = []
     rest = []
+    pre_cond = {}           # index in pre -> condition of an optional piece
     seen_brace = False
-    for loops, t in texts:
+    for loops, cond, t in ws:
         if not seen_brace and is_const(t) and isinstance(t[1], str) and t[1].lstrip().startswith("{"):
             seen_brace = True
+        if cond != TRUE:
+            if seen_brace:
+                chk.undecided(rule, f.where(), "a write of the dictionary is conditional: %s" % show(cond))
+                return None
+            pre_cond[len(pre)] = cond
+        texts.append((loops, t))
         (rest if seen_brace else pre).append((loops, t))
+    opt_conds = []
+    for c in pre_cond.values():
+        if c not in opt_conds:
+            opt_conds.append(c)
+    if len(opt_conds) > 3:
+        chk.undecided(rule, f.where(), "%d different conditions on preamble pieces" % len(opt_conds))
+        return None
     hole_ok = True
 
     def piece_text(t):
@@ -160,6 +178,32 @@ def r1_template(ctx, chk, rule="C11.1"):
             ok, val = ctx.prog.try_const(ast.Name(id=t[1][1], ctx=ast.Load()), f.mod)
             if ok and isinstance(val, (list, tuple)) and all(isinstance(x, str) and "\n" not in x for x in val):
                 return "X"
+        if t[0] == "mod" and is_const(t[1]) and isinstance(t[1][1], str):
+            t = ("binop", "Mod", t[1], t[2])
+        if t[0] == "binop" and t[1] == "Mod" and is_const(t[2]) and isinstance(t[2][1], str):
+            # "...%d..." % (a, b): numeric conversions are newline-free whatever the argument; %s shows its argument
+            import re as _re
+            args = list(t[3][1]) if t[3][0] == "tup" else [t[3]]
+            out_, pos_, ai = [], 0, 0
+            for m_ in _re.finditer(r"%[-+0 #]*\d*(?:\.\d+)?([diouxXeEfFgGsr%])", t[2][1]):
+                out_.append(t[2][1][pos_:m_.start()])
+                pos_ = m_.end()
+                conv = m_.group(1)
+                if conv == "%":
+                    out_.append("%")
+                    continue
+                if ai >= len(args):
+                    return None
+                if conv in "diouxXeEfFgG":
+                    out_.append("7")
+                else:
+                    sub = piece_text(args[ai])
+                    if sub is None:
+                        return None
+                    out_.append(sub)
+                ai += 1
+            out_.append(t[2][1][pos_:])
+            return "".join(out_)
         if t[0] == "repeat" or (t[0] == "mul"):
             return None
         hole_ok = False
@@ -173,8 +217,14 @@ def r1_template(ctx, chk, rule="C11.1"):
                 loop_ids.append(l)
     import itertools
     variants = 0
-    for counts in itertools.product((0, 1, 2), repeat=len(loop_ids)):
+    pre_all = pre
+    for counts_on in itertools.product(itertools.product((0, 1, 2), repeat=len(loop_ids)), itertools.product((False, True), repeat=len(opt_conds))):
+        counts, on = counts_on
         reps = dict(zip(loop_ids, counts))
+        # optional pieces: all pieces under one condition are present or absent together (a condition and its negation are
+        # two conditions here: that only adds combinations that cannot happen, never removes one that can)
+        live = dict(zip([repr(c) for c in opt_conds], on))
+        pre = [x for i, x in enumerate(pre_all) if i not in pre_cond or live[repr(pre_cond[i])]]
         out = []
 
         def emit(items, depth_loops):
